@@ -110,6 +110,13 @@ func body(p Program, o *obs) func() {
 		switch p.Filter {
 		case "rejectd":
 			ld.DirFilter = func(_ filesystem.Filespace, sub string) bool { return !strings.HasSuffix(sub, "/d") && sub != "./d" }
+		case "rejectd-filesonly":
+			// a directory filter WITHOUT a directory callback: rejected directories are still not entered
+			ld.DirFilter = func(_ filesystem.Filespace, sub string) bool { return !strings.HasSuffix(sub, "/d") && sub != "./d" }
+			ld.OnDir = nil
+		case "rejectd-dirsonly":
+			ld.DirFilter = func(_ filesystem.Filespace, sub string) bool { return !strings.HasSuffix(sub, "/d") && sub != "./d" }
+			ld.OnFile = nil
 		case "filesonly":
 			ld.OnDir = nil
 		case "nofileb":
@@ -136,7 +143,7 @@ func expected(p Program) (files, dirs []string) {
 	accept := func(path string) bool { // every ancestor dir accepted
 		parts := strings.Split(path, "/")
 		for i := 1; i < len(parts); i++ {
-			if p.Filter == "rejectd" && parts[i-1] == "d" {
+			if strings.HasPrefix(p.Filter, "rejectd") && parts[i-1] == "d" {
 				return false
 			}
 		}
@@ -161,12 +168,15 @@ func expected(p Program) (files, dirs []string) {
 	for _, d := range p.Dirs {
 		addDirs(d, true)
 	}
-	if p.Filter != "filesonly" {
+	if p.Filter != "filesonly" && p.Filter != "rejectd-filesonly" {
 		for d := range dset {
-			if accept(d) && !(p.Filter == "rejectd" && (d == "d" || strings.HasSuffix(d, "/d"))) {
+			if accept(d) && !(strings.HasPrefix(p.Filter, "rejectd") && (d == "d" || strings.HasSuffix(d, "/d"))) {
 				dirs = append(dirs, "./"+d)
 			}
 		}
+	}
+	if p.Filter == "rejectd-dirsonly" {
+		files = nil
 	}
 	sort.Strings(files)
 	sort.Strings(dirs)
@@ -315,7 +325,7 @@ func programs(thorough bool) []Program {
 	if thorough {
 		base.Bound = 2
 	}
-	for _, f := range []string{"rejectd", "filesonly", "nofileb"} {
+	for _, f := range []string{"rejectd", "filesonly", "nofileb", "rejectd-filesonly", "rejectd-dirsonly"} {
 		p := base
 		p.Name, p.Filter = "filter-"+f, f
 		add(p)
